@@ -1466,16 +1466,24 @@ class Operation(_IRNode):
             or len(self.results) != len(other.results)
             or len(self.regions) != len(other.regions)
             or len(self.successors) != len(other.successors)
+            or self.result_types != other.result_types
             or self.attributes != other.attributes
             or self.properties != other.properties
         ):
             return False
+        # Operations compared as part of two blocks must be in corresponding blocks.
+        # The parent of the operations on which the comparison was started is not
+        # part of the compared IR.
         if (
             self.parent is not None
             and other.parent is not None
-            and context.get(self.parent) != other.parent
+            and context.get(self.parent, other.parent) != other.parent
         ):
             return False
+        # Add the results of this operation to the context before looking at the
+        # operands and regions: in graph regions an operation may use its own results.
+        for result, other_result in zip(self.results, other.results):
+            context[result] = other_result
         if not all(
             context.get(operand, operand) == other_operand
             for operand, other_operand in zip(self.operands, other.operands)
@@ -1491,9 +1499,6 @@ class Operation(_IRNode):
             for region, other_region in zip(self.regions, other.regions)
         ):
             return False
-        # Add results of this operation to the context
-        for result, other_result in zip(self.results, other.results):
-            context[result] = other_result
 
         return True
 
@@ -2044,6 +2049,28 @@ class Block(_IRNode, IRWithUses, IRWithName):
         for op in self.ops:
             op.erase(safe_erase=safe_erase, drop_references=False)
 
+    def _register_equivalent_values(
+        self,
+        other: Block,
+        context: dict[IRNode | SSAValue, IRNode | SSAValue],
+    ) -> bool:
+        """
+        Register the arguments of this block and the results of its operations as
+        corresponding to the ones of `other`, so that values can be used before their
+        definition (graph regions, blocks listed before the blocks that dominate them).
+        Returns False if the blocks do not define the same number of values.
+        """
+        if len(self.args) != len(other.args) or len(self.ops) != len(other.ops):
+            return False
+        for arg, other_arg in zip(self.args, other.args):
+            context[arg] = other_arg
+        for op, other_op in zip(self.ops, other.ops):
+            if len(op.results) != len(other_op.results):
+                return False
+            for result, other_result in zip(op.results, other_op.results):
+                context[result] = other_result
+        return True
+
     def is_structurally_equivalent(
         self,
         other: IRNode,
@@ -2059,12 +2086,11 @@ class Block(_IRNode, IRWithUses, IRWithName):
             context = {}
         if not isinstance(other, Block):
             return False
-        if len(self.args) != len(other.args) or len(self.ops) != len(other.ops):
+        if not self._register_equivalent_values(other, context):
             return False
         for arg, other_arg in zip(self.args, other.args):
             if arg.type != other_arg.type:
                 return False
-            context[arg] = other_arg
         # Add self to the context so Operations can check for identical parents
         context[self] = other
         if not all(
@@ -2706,6 +2732,13 @@ class Region(_IRNode):
         # the corrects successors
         for block, other_block in zip(self.blocks, other.blocks):
             context[block] = other_block
+        # register all values defined in the blocks, as they can be used in a block
+        # listed before the one that defines them
+        for block, other_block in zip(self.blocks, other.blocks):
+            if not block._register_equivalent_values(  # pyright: ignore[reportPrivateUsage]
+                other_block, context
+            ):
+                return False
         if not all(
             block.is_structurally_equivalent(other_block, context)
             for block, other_block in zip(self.blocks, other.blocks)
